@@ -208,6 +208,16 @@ def runOp (line : String) : Option String :=
   | ["slaved", b] => do
     let b ← pU8 b
     pure s!"{hexBytes (Slave.display b).toUTF8.toList} {classTok b}"
+  -- the same encoders behind bytes already waiting in the output buffer: what is appended
+  -- does not depend on them
+  | ["tcpreq", tid, u, r, _pre] => do
+    pure (res hexBytes (tcpEncodeRequest { transactionId := (← pU16 tid), unitId := (← pU8 u) } (← pRequest r)))
+  | ["rtureq", u, r, _pre] => do
+    pure (res hexBytes (rtuEncodeRequest (← pU8 u) (← pRequest r)))
+  | ["tcprsp", tid, u, r, _pre] => do
+    pure (res hexBytes (tcpEncodeResponse { transactionId := (← pU16 tid), unitId := (← pU8 u) } (← pResponseResult r)))
+  | ["rtursp", u, r, _pre] => do
+    pure (res hexBytes (rtuEncodeResponse (← pU8 u) (← pResponseResult r)))
   | ["tcpreq", tid, u, r] => do
     pure (res hexBytes (tcpEncodeRequest { transactionId := (← pU16 tid), unitId := (← pU8 u) } (← pRequest r)))
   | ["rtureq", u, r] => do
